@@ -150,6 +150,9 @@ func (c *ATConn) BeginTx(ctx context.Context, opts driver.TxOptions) (driver.Tx,
 
 	tx, err := c.Conn.BeginTx(ctx, opts)
 	if err != nil {
+		// no transaction was opened: the connection is not in one (a connection
+		// the application keeps is not reset by the pool)
+		c.resetAfterTx()
 		return nil, err
 	}
 
